@@ -119,7 +119,7 @@ def mk_action(real: Real, kind, marker: str):
     raise ValueError(kind)
 
 
-def build_router(real: Real, cfg):
+def build_router(real: Real, cfg, stage_compile=None):
     """Router(...) + registrations through the public API. May raise PyTeal's own errors."""
     pt = real.pt
     CC = pt.CallConfig
@@ -138,7 +138,10 @@ def build_router(real: Real, cfg):
     if cfg["clear"] is not None:
         clear = mk_action(real, cfg["clear"][0], f"CLR{cfg['clear'][1]}")
     router = pt.Router("c08", bare, clear_state=clear)
+    staged = cfg.get("staged_after")       # the router is compiled once after this many registrations, the rest is registered then
     for k, m in enumerate(cfg["methods"]):
+        if staged is not None and k == staged and stage_compile is not None:
+            stage_compile(router)
         fn = mk_abi_method(real, m, k)
         mc = dict(zip(OC_NAMES, [CC(c) for c in m["mc"]]))
         via = m.get("via", "add")
@@ -172,8 +175,16 @@ def compile_real(real: Real, cfg, var):
     pt = real.pt
     try:
         with real.quiet():
-            router = build_router(real, cfg)
             fp = var["frame_pointers"] if var["version"] >= 8 else None
+
+            def early(rt):
+                # an earlier compilation of the half-registered router, same settings (its result is not looked at)
+                try:
+                    rt.compile_program(version=var["version"], assemble_constants=var["assemble_constants"],
+                                       optimize=pt.OptimizeOptions(frame_pointers=fp, scratch_slots=var["scratch_slots"]))
+                except real.own:
+                    pass
+            router = build_router(real, cfg, early)
             ap, cl, contract = router.compile_program(
                 version=var["version"], assemble_constants=var["assemble_constants"],
                 optimize=pt.OptimizeOptions(frame_pointers=fp, scratch_slots=var["scratch_slots"]))
@@ -521,7 +532,10 @@ def gen_cfg(r, max_methods):
         for k2 in ks[1:]:
             if r.random() < 0.7:
                 bare[k2] = [bare[k2][0], src[1], src[2]]
-    return {"methods": methods, "bare": bare, "clear": clear, "bare_object": r.random() < 0.8, "share_actions": share}
+    out = {"methods": methods, "bare": bare, "clear": clear, "bare_object": r.random() < 0.8, "share_actions": share}
+    if len(methods) >= 2 and r.random() < 0.25:
+        out["staged_after"] = r.randrange(1, len(methods))
+    return out
 
 
 def find_collision():
